@@ -22,6 +22,15 @@ def build(repo="/repo", bins=None, timeout=900):
         if os.path.islink(os.path.join(bdir, "src")): os.unlink(os.path.join(bdir, "src"))
         else: shutil.rmtree(os.path.join(bdir, "src"))
     os.symlink(os.path.join(RDIR, "src"), os.path.join(bdir, "src"))
+    # generated sources: the shared contract predicates and the constructor dispatcher
+    import sys
+    sys.path.insert(0, os.path.join(HERE, "kx"))
+    import kunits
+    shutil.copy(os.path.join(HERE, "kx", "spec.rs"), os.path.join(RDIR, "src", "spec.rs"))
+    gen = kunits.gen_replay_ctor()
+    gp = os.path.join(RDIR, "src", "gen_ctor.rs")
+    if not os.path.exists(gp) or open(gp).read() != gen:
+        with open(gp, "w") as f: f.write(gen)
     lock = os.path.join(repo, "Cargo.lock")
     if os.path.exists(lock) and not os.path.exists(os.path.join(bdir, "Cargo.lock")):
         shutil.copy(lock, os.path.join(bdir, "Cargo.lock"))
